@@ -127,10 +127,11 @@ struct Node : Base {
 	}
 
 	// ---- pure answers
-	hfsm2::Prong select(const Control& c) { Probe& p = P(c); ++p.callbacks; if (p.k.pendq >= 2) { p.log->tag('a'); p.log->i(1); p.log->i(ID); p.log->nl(); } return (hfsm2::Prong)p.ansSelect(ID, W); }
+	static void arec(Probe& p, int meth) { ++p.callbacks; if (p.k.logAnswers && !p.quiet) { p.log->tag('a'); p.log->i(meth); p.log->i(ID); p.log->nl(); } }
+	hfsm2::Prong select(const Control& c) { Probe& p = P(c); arec(p, 1); return (hfsm2::Prong)p.ansSelect(ID, W); }
 #ifdef HFSM2_ENABLE_UTILITY_THEORY
-	typename Base::Rank rank(const Control& c) { Probe& p = P(c); ++p.callbacks; return (typename Base::Rank)p.ansRank(ID); }
-	typename Base::Utility utility(const Control& c) { Probe& p = P(c); ++p.callbacks; return 0.125f * (float)p.ansUtil8(ID); }
+	typename Base::Rank rank(const Control& c) { Probe& p = P(c); arec(p, 2); return (typename Base::Rank)p.ansRank(ID); }
+	typename Base::Utility utility(const Control& c) { Probe& p = P(c); arec(p, 3); return 0.125f * (float)p.ansUtil8(ID); }
 #endif
 
 	// ---- guards
